@@ -91,6 +91,11 @@ def effective_class(p):
 # ---------------------------------------------------------------------------
 
 def _bbox(sg):
+    """(s_lat, n_lat, e_long, w_long) exactly as a reader sees them: extents are 3-decimal
+    numbers; they are derived in integer milli-arc-seconds so that no float drift enters"""
+    if 's_lat_m' in sg:
+        return (sg['s_lat_m'] / 1000.0, (sg['s_lat_m'] + (sg['nrow'] - 1) * sg['lat_inc_m']) / 1000.0,
+                sg['e_long_m'] / 1000.0, (sg['e_long_m'] + (sg['ncol'] - 1) * sg['long_inc_m']) / 1000.0)
     return (sg['s_lat'], sg['s_lat'] + (sg['nrow'] - 1) * sg['lat_inc'],
             sg['e_long'], sg['e_long'] + (sg['ncol'] - 1) * sg['long_inc'])
 
@@ -99,26 +104,48 @@ def _overlap(a, b):
     return a[0] < b[1] and b[0] < a[1] and a[2] < b[3] and b[2] < a[3]
 
 
+# increments in milli-arc-seconds.  The second list holds values that are NOT exactly representable
+# in binary (still <= 3 decimals, so extents stay 3-decimal numbers): (w_long - e_long) / long_inc
+# is then not an exact integer in floating point.
+INCS_M = [int(x * 1000) for x in INCS]
+INCS_NONDYADIC_M = [90900, 36600, 33333, 66667, 133333, 327273, 64286, 47100, 100100, 1234567, 30003]
+
+
+def _finish(sg):
+    sg['s_lat'] = sg['s_lat_m'] / 1000.0
+    sg['e_long'] = sg['e_long_m'] / 1000.0
+    sg['lat_inc'] = sg['lat_inc_m'] / 1000.0
+    sg['long_inc'] = sg['long_inc_m'] / 1000.0
+    b = _bbox(sg)
+    sg['n_lat'], sg['w_long'] = b[1], b[3]
+    return sg
+
+
 def gen_root(rng, name):
-    lat_inc = rng.choice(INCS)
-    long_inc = lat_inc if rng.random() < 0.5 else rng.choice(INCS)
+    pool = INCS_NONDYADIC_M if rng.random() < 0.3 else INCS_M
+    lat_inc = rng.choice(pool)
+    long_inc = lat_inc if rng.random() < 0.5 else rng.choice(pool)
     size = lambda: rng.choice([3, 3, 4, 4, 5, 6, 7, 8, 10, 12, 16, 24, 40, 60])
     nrow, ncol = size(), size()
-    while (nrow - 1) * lat_inc > 150 * 3600:
+    while (nrow - 1) * lat_inc > 150 * 3600000:
         nrow = max(3, nrow // 2)
-    while (ncol - 1) * long_inc > 300 * 3600:
+    while (ncol - 1) * long_inc > 300 * 3600000:
         ncol = max(3, ncol // 2)
-    lo = int(math.ceil(-88 * 3600 / lat_inc))
-    hi = int(math.floor((88 * 3600 - (nrow - 1) * lat_inc) / lat_inc))
+    lo = -(88 * 3600000 // lat_inc)
+    hi = (88 * 3600000 - (nrow - 1) * lat_inc) // lat_inc
     s_lat = rng.randrange(lo, hi + 1) * lat_inc
-    lo = int(math.ceil(-179 * 3600 / long_inc))
-    hi = int(math.floor((179 * 3600 - (ncol - 1) * long_inc) / long_inc))
+    lo = -(179 * 3600000 // long_inc)
+    hi = (179 * 3600000 - (ncol - 1) * long_inc) // long_inc
     e_long = rng.randrange(lo, hi + 1) * long_inc
-    if rng.random() < 0.2:           # sub-arc-second extents (<= 3 decimals, dyadic)
-        s_lat += rng.choice([0.5, 0.25, 0.125])
-        e_long += rng.choice([0.5, 0.25, 0.125])
-    return {'name': name, 'parent': 'NONE', 's_lat': s_lat, 'e_long': e_long, 'lat_inc': lat_inc,
-            'long_inc': long_inc, 'nrow': nrow, 'ncol': ncol}
+    k = rng.random()
+    if k < 0.2:           # sub-arc-second extents (dyadic)
+        s_lat += rng.choice([500, 250, 125])
+        e_long += rng.choice([500, 250, 125])
+    elif k < 0.35:        # sub-arc-second extents (3 decimals, not dyadic)
+        s_lat += rng.randrange(1, 1000)
+        e_long += rng.randrange(1, 1000)
+    return _finish({'name': name, 'parent': 'NONE', 's_lat_m': s_lat, 'e_long_m': e_long, 'lat_inc_m': lat_inc,
+                    'long_inc_m': long_inc, 'nrow': nrow, 'ncol': ncol})
 
 
 def gen_child(rng, parent, name):
@@ -127,8 +154,10 @@ def gen_child(rng, parent, name):
     for _ in range(20):
         dr = rng.choice([2, 2, 3, 4, 5, 6, 8, 10])
         dc = dr if rng.random() < 0.6 else rng.choice([2, 3, 4, 5])
-        li, lo = parent['lat_inc'] / dr, parent['long_inc'] / dc
-        if li < 30 or lo < 30 or li != round(li * 8) / 8 or lo != round(lo * 8) / 8:
+        if parent['lat_inc_m'] % dr or parent['long_inc_m'] % dc:
+            continue
+        li, lo = parent['lat_inc_m'] // dr, parent['long_inc_m'] // dc
+        if li < 30000 or lo < 30000:
             continue
         i0 = rng.randrange(0, parent['nrow'] - 1)
         i1 = rng.randrange(i0 + 1, min(parent['nrow'], i0 + 1 + max(1, 59 // dr)))
@@ -137,9 +166,9 @@ def gen_child(rng, parent, name):
         nrow, ncol = (i1 - i0) * dr + 1, (j1 - j0) * dc + 1
         if nrow < 3 or ncol < 3 or nrow > 60 or ncol > 60:
             continue
-        return {'name': name, 'parent': parent['name'], 's_lat': parent['s_lat'] + i0 * parent['lat_inc'],
-                'e_long': parent['e_long'] + j0 * parent['long_inc'], 'lat_inc': li, 'long_inc': lo,
-                'nrow': nrow, 'ncol': ncol}
+        return _finish({'name': name, 'parent': parent['name'], 's_lat_m': parent['s_lat_m'] + i0 * parent['lat_inc_m'],
+                        'e_long_m': parent['e_long_m'] + j0 * parent['long_inc_m'], 'lat_inc_m': li, 'long_inc_m': lo,
+                        'nrow': nrow, 'ncol': ncol})
     return None
 
 
@@ -359,7 +388,7 @@ class C17(CheckBase):
     run_timeout = 60
     required_probes = ['stencil_would_leave_grid', 'overlap_resolved_by_spacing', 'query_in_last_subgrid_of_file',
                        'query_in_non_first_subgrid', 'relevant_corruption_changes_answer',
-                       'just_inside', 'just_outside']
+                       'just_inside', 'just_outside', 'second_grid_file_in_run']
     components = {
         'real': ['geodepy.ntv2reader (read_ntv2_file, interpolate_ntv2, SubGrid.ntv2_bilinear / ntv2_bicubic)',
                  'geodepy.transform.ntv2_2d', 'struct', 'numpy'],
@@ -413,7 +442,21 @@ class C17(CheckBase):
                 else:
                     faults.append({'kind': 'eio', 'op': rng.choice([-1] + [o['id'] for o in ops]), 'nth': rng.randrange(1, 70)})
         path = rng.choice(['/data/grids/test.gsb', 'grid.gsb', './sub/../grid file.gsb', '/sim/NTv2_0.gsb'])
-        return {'property': 'C17', 'spec': spec, 'path': path, 'ops': ops, 'faults': faults}
+        tr = {'property': 'C17', 'spec': spec, 'path': path, 'ops': ops, 'faults': faults}
+        if not fault_run and rng.random() < 0.3:
+            spec2 = gen_spec(rng)
+            extra = []
+            for j in range(rng.choice([2, 4, 8])):
+                sg = rng.choice(spec2['subgrids'])
+                cls = rng.choice(['node', 'interior', 'ring', 'corner', 'edge'])
+                lat, lon = self._position(rng, sg, cls)
+                extra.append({'id': len(ops) + j, 'kind': 'q', 'lat': lat, 'lon': lon, 'method': rng.choice(['bicubic', 'bilinear']),
+                              'cls': cls, 'rot': rng.choice(['none', 'inplace', 'B']), 'g': 1})
+            # interleave the second grid's queries with the first grid's
+            for e in extra:
+                ops.insert(rng.randrange(0, len(ops) + 1), e)
+            tr['other'] = {'spec': spec2, 'path': 'other/second.gsb'}
+        return tr
 
     @staticmethod
     def _frac(rng):
@@ -554,8 +597,31 @@ class C17(CheckBase):
                               if layout[k] <= keep and s['name'] in grid.subgrids)
         model = Model(spec, present)
         judged = 0
+        # an optional second, unrelated grid file held open by the same caller: queries alternate
+        # between the two grid objects (history / cross-file dimension: nothing read for one grid
+        # may influence an answer for the other)
+        other = None
+        oth = trace.get('other')
+        if oth and not fault_run and grid is not None:
+            try:
+                odata, olayout = build_file(oth['spec'])
+                fs.put(oth['path'], odata)
+                ogrid = nr.read_ntv2_file(oth['path'])
+                self._check_meta(ogrid, oth['spec'], oth['path'], V, None, olayout)
+                other = (ogrid, Model(oth['spec']), oth['path'], fs.abspath(oth['path']), odata, olayout, oth['spec'],
+                         self._topology(oth['spec']), sorted(set(effective_class(p) for fl in oth['spec']['fields'] for p in fl)))
+                bump('probe:second_grid_file_in_run')
+            except Exception as e:
+                V('read-raised', 'read_ntv2_file', {'exc': type(e).__name__, 'msg': str(e)[:200], 'file': 'second grid'})
         if grid is not None:
             for op in trace['ops']:
+                if op.get('g') == 1:
+                    if other is None:
+                        continue
+                    og, om, opath, oap, od, ol, ospec, otopo, ofc = other
+                    judged += self._do_op(op, og, om, fs, opath, oap, od, ol, ospec, False, False, arm,
+                                          V, bump, log, sigset, otopo, ofc)
+                    continue
                 judged += self._do_op(op, grid, model, fs, path, apath, data, layout, spec, fault_run, bool(torn), arm,
                                       V, bump, log, sigset, topo, fclasses)
         for k, v in fs.fired.items():
